@@ -117,9 +117,13 @@ fn verify_match_rule(
                     VirtualTargetPath::new(src_base_path.to_string())
                         .expect("Unexpected VirtualTargetPath creation failed");
 
-                if let Err(e) = src_base_path.matches(pattern.value()) {
-                    warn!("match failed: {}", e.to_string());
-                    continue;
+                match src_base_path.matches(pattern.value()) {
+                    Ok(true) => {}
+                    Ok(false) => continue,
+                    Err(e) => {
+                        warn!("match failed: {}", e.to_string());
+                        continue;
+                    }
                 }
 
                 let dst_path = {
